@@ -445,5 +445,26 @@ func runC13(r *Runner, g *Gen, tier string) string {
 		}
 		r.Do(codecOp("desccalls", cfg, t, "", v.Sexp(), A(via), A(enc[3:])), nontrivialVal(t, v), "desccalls."+via)
 	}
+	// deep nesting: structs, slices of structs and string-keyed maps nested 30-40 and 70 levels
+	for _, depth := range []int{30, 31, 32, 33, 34, 35, 40, 70} {
+		for shape := 0; shape < 3; shape++ {
+			t := Struct(F("V", "1", B("int")), F("S", "2", B("str")))
+			v := &Val{K: "r", L: []*Val{{K: "i", I: 7}, {K: "s", Data: []byte("deep")}}}
+			for d := 0; d < depth; d++ {
+				switch shape {
+				case 0:
+					t, v = Struct(F("N", "1", t), F("A", "2", B("int"))), &Val{K: "r", L: []*Val{v, {K: "i", I: int64(d)}}}
+				case 1:
+					t, v = Struct(F("L", "1", Slice(t))), &Val{K: "r", L: []*Val{{K: "l", L: []*Val{v}}}}
+				case 2:
+					t, v = Struct(F("M", "1", Map(B("str"), t))), &Val{K: "r", L: []*Val{{K: "m", M: [][2]*Val{{{K: "s", Data: []byte("k")}, v}}}}}
+				}
+			}
+			enc := execOp(codecOp("enc", "00", t, "", v.Sexp()))
+			if strings.HasPrefix(enc, "ok x") {
+				r.Do(codecOp("desccalls", "00", t, "", v.Sexp(), A("direct"), A(enc[3:])), true, "desccalls.deep")
+			}
+		}
+	}
 	return "generated struct types and values; op = Marshal, then Descriptor.Read with the JSON outputter, the descriptor taken directly / after a plenc round trip / after an encoding/json round trip; oracle: json.Valid and content equal to the value in the JSON data model (objects by field name with omitted fields absent, arrays element for element, string-keyed maps as objects, other maps as key/value lists compared as multisets, pointers as targets, RFC3339 times, numbers by value)"
 }
